@@ -204,6 +204,8 @@ def certStep (specMode : Bool) (st : String) : Option Fp.Cert.Step := do
   | 'w' :: 'k' :: r => some (.setKey (.half (← num (String.ofList r))) true)
   | 'r' :: 'c' :: r => some (.setCert (.half (← num (String.ofList r))) true)
   | 'r' :: 'k' :: r => some (.setKey (.half (← num (String.ofList r))) true)
+  | ['d', 'c'] => some (.setCert .missing true)
+  | ['d', 'k'] => some (.setKey .missing true)
   | ['t', 'c'] | ['g', 'c'] => some (.setCert .junk true)
   | ['t', 'k'] | ['g', 'k'] => some (.setKey .junk true)
   | 'p' :: 'c' :: _ => some (.setCert .junk true)
@@ -282,9 +284,11 @@ def handle (cmd : String) (args : List String) : String :=
     -- C17: Serve returns ErrServerClosed promptly, listener closed, nothing served afterwards, idle h1 closed,
     -- an in-flight HTTP/1.1 exchange completes and Serve waits for it
     let infl := (kv toks "inflight") == some "1" && (kv toks "early") != some "1"
+    let held := (kv toks "hold") == some "1" && (kv toks "early") != some "1"
     "ret=errclosed fast=1 listener=closed post=refused h1idle=closed inflight=" ++ (if infl then "done" else "n/a") ++
-      " drain=" ++ (if infl then "ok" else "n/a")
+      " drain=" ++ (if infl then "ok" else "n/a") ++ " during=" ++ (if held then "refused" else "n/a")
   | "life", _ => "closed=1 released=1"    -- C11: the proxy cut / released the connection
+  | "certrace", toks => "ok last=" ++ (kv toks "n").getD "?"   -- C14: no torn pair under concurrent handshakes; converges to the last update
   | "cert", toks => (certRun true toks).getD "bad-op"
   | "certm", toks => (certRun false toks).getD "bad-op"
   | "metrics", toks => (metricsSpec toks).getD "bad-op"
